@@ -98,7 +98,9 @@ def gen_and_run(ctx, avh, avm, seed, tier, enable, nscripts, tag, avh_oracle=Non
     with cf.ThreadPoolExecutor(max_workers=NSHARDS) as ex:
         shards = list(ex.map(shard, range(NSHARDS)))
     res = {"cdir": cdir, "shards": shards}
-    json.dump(res, open(meta, "w"))
+    # only clean results are cached: a mismatch or an oracle failure is always recomputed (and then confirmed in isolation)
+    if not any(s.get("mismatch") or s.get("error") for s in shards):
+        json.dump(res, open(meta, "w"))
     return res
 
 
@@ -217,7 +219,22 @@ def run_tree_property(pid, tier, seed, props_file, enable="serialize", rule_extr
         errs = [s.get("error") for s in shards if s.get("error")]
         nscr = sum(s.get("n", 0) for s in shards)
         nlines = sum(s.get("lines", 0) for s in shards)
-        mism = [(s["shard"], k) for s in shards for k in s.get("mismatch", [])]
+        mism_raw = [(s["shard"], k) for s in shards for k in s.get("mismatch", [])]
+        # confirm each disagreement by an isolated re-run of that script on both sides (a loaded machine can make the
+        # watchdog of the harness fire, which shows up as a one-off difference)
+        mism = []
+        for (sh, k) in mism_raw[:12]:
+            txt = split_scripts(shards[sh]["script_file"]).get(k, "")
+            pth = os.path.join(TW, "confirm_corr_%s.txt" % pid)
+            open(pth, "w").write(txt)
+            _, o1, _ = lib.run([avh, "tree", "run", DUMP, pth], cwd=TW, timeout=600)
+            _, o2, _ = lib.run([avm, DUMP, pth], cwd=TW, timeout=600)
+            a1 = [l for l in o1.split("\n") if l.startswith("S ")]
+            b1 = [l for l in o2.split("\n") if l.startswith("S ")]
+            if a1 != b1 or not a1:
+                mism.append((sh, k))
+        if mism_raw and not mism:
+            ctx.notes.append("%d correspondence differences did not reproduce in isolation (machine load): ignored" % len(mism_raw))
         detail = ""
         if mism:
             sh, k = mism[0]
